@@ -115,7 +115,7 @@ PROPS = {
         models=[dict(module="Rng", about="toy sampler machine: all candidate sequences <= 3 per operation: used scalars are in range, accepted during the operation, one per operation"),
                 dict(module="Rng", cfg="Rng_neg", expect="violation", about="negative: a sampler accepting candidates up to CMax-1 (like c < p-1) must be refuted")],
         stages=[dict(suite="rng", trace="TraceRng", workers=1,
-                     required_classes={"both": ["rng.op/sm2.sign", "rng.op/sm2.keygen", "rng.op/sm2.encrypt", "rng.op/sm2.kx1", "rng.op/sm2.kx2", "rng.op/sm2.sign.injected", "rng.summary/summary"]})],
+                     required_classes={"both": ["rng.op/sm2.sign", "rng.op/sm2.keygen", "rng.op/sm2.encrypt", "rng.op/sm2.kx1", "rng.op/sm2.kx2", "rng.op/sm2.sign.injected", "rng.op/sm9.sign", "rng.op/sm9.encrypt", "rng.op/sm9.keygen-sign", "rng.op/sm9.kx1a", "rng.op/sm9.kx1b", "rng.op/sm9.sign.injected", "rng.summary/summary"]})],
         assumptions=["bit-unbiasedness is a counting test (8 sigma per bit position); OS seeding is observed only through non-repetition across two processes",
                      "the RNG hook reports every candidate at the point where 32 generator bytes become a candidate"],
     ),
@@ -145,6 +145,67 @@ PROPS = {
                                                 "ec.smul/smul.k=0", "ec.gmul/gmul.k<n", "ec.valid/valid.off", "ec.table/table.entry", "ec.table/table.row-base",
                                                 "fp.op/fp.mul.near-modulus", "fp.op/fp.add.near-2^256-m", "fn.op/fn.add.near-modulus"]})],
         assumptions=["Weierstrass.tla is the affine group law; verdicts are on denotations (X/Z^2, Y/Z^3 of the Montgomery-decoded coordinates)", "BigNat Java override (cross-checked by MC_BigNat)"],
+    ),
+    "C16": dict(
+        level="model_checking",
+        rule="events = mod_n_from_hash on planned boundary / random 40-byte Ha, H1/H2 wrappers, key extraction for Annex / edge / random / crafted master keys; distinct = distinct inputs; non-trivial = all",
+        models=[dict(module="AnchorSM9q", anchor=True, workers=1, tier="quick", about="SM9.tla reproduces the GM/T 0044.5 Annex extraction / signature / ciphertext values via the derived evaluator; G0 has order N"), dict(module="AnchorSM9", anchor=True, workers=1, tier="thorough", timeout=900, about="all GM/T 0044.5 Annex values incl. the definitional pairings, decryption and key exchange; G0Const = Pairing(P1,P2)")],
+        stages=[dict(suite="sm9hash", trace="TraceSM9", plan=dict(module="PlanSM9", cfg_quick="PlanSM9_q", cfg_thorough="PlanSM9_t"),
+                     required_classes={"both": ["sm9.from_hash/from_hash.rem=0.planned", "sm9.from_hash/from_hash.rem=N-2.planned", "sm9.from_hash/from_hash.rem-generic.random", "sm9.hash1/hash1",
+                                                "sm9.extract/extract.sign", "sm9.extract/extract.enc", "sm9.extract/extract.exch", "sm9.extract/extract.sign.none"]})],
+        assumptions=["SM9.tla transcribes GM/T 0044 H1/H2 and extraction (Annex values as ASSUMEs)"],
+    ),
+    "C09": dict(
+        level="model_checking",
+        rule="events = sign calls under the RNG hook, verify calls on library-made / spec-made signatures and enumerated faults; distinct = distinct inputs; non-trivial = all but untouched verifications",
+        trivial_classes=("verify.untouched",),
+        models=[dict(module="AnchorSM9q", anchor=True, workers=1, tier="quick", about="SM9.tla reproduces the GM/T 0044.5 Annex extraction / signature / ciphertext values via the derived evaluator; G0 has order N"), dict(module="AnchorSM9", anchor=True, workers=1, tier="thorough", timeout=900, about="all GM/T 0044.5 Annex values incl. the definitional pairings, decryption and key exchange; G0Const = Pairing(P1,P2)"),
+                dict(module="MC_SM9Sig", about="exponent model Z_7 with lazily sampled random oracle and single-field tampering: honest => accept; h out of range => error; accepted forgery => coincidence"),
+                dict(module="MC_SM9Sig", cfg="MC_SM9Sig_neg", expect="violation", about="negative: the forgery invariant without the coincidence classes must be refuted (invariant is tight)")],
+        stages=[dict(suite="sm9sig", trace="TraceSM9", plan=dict(module="PlanSM9", cfg_quick="PlanSM9_q", cfg_thorough="PlanSM9_t"), timeout=3400,
+                     required_classes={"both": ["sm9.sign/sign.fixed-r", "sm9.sign/sign.free-r", "sm9.verify/verify.untouched", "sm9.verify/verify.spec-made", "sm9.verify/verify.h-range",
+                                                "sm9.verify/verify.S-bitflip", "sm9.verify/verify.altered-master-key"]})],
+        assumptions=["SM9.tla transcribes GM/T 0044.2 (Annex A signature as ASSUME); derived evaluator g = G0^ks for honest events"],
+    ),
+    "C10": dict(
+        level="model_checking",
+        rule="events = encrypt calls under the RNG hook, decrypt calls on library-made / spec-made ciphertexts and enumerated faults; distinct = distinct inputs; non-trivial = all",
+        models=[dict(module="AnchorSM9q", anchor=True, workers=1, tier="quick", about="SM9.tla reproduces the GM/T 0044.5 Annex extraction / signature / ciphertext values via the derived evaluator; G0 has order N"), dict(module="AnchorSM9", anchor=True, workers=1, tier="thorough", timeout=900, about="all GM/T 0044.5 Annex values incl. the definitional pairings, decryption and key exchange; G0Const = Pairing(P1,P2)")],
+        stages=[dict(suite="sm9enc", trace="TraceSM9", plan=dict(module="PlanSM9", cfg_quick="PlanSM9_q", cfg_thorough="PlanSM9_t"), timeout=3400,
+                     required_classes={"both": ["sm9.encrypt/encrypt.short", "sm9.encrypt/encrypt.len%32=0", "sm9.decrypt/decrypt.none", "sm9.decrypt/decrypt.spec-made", "sm9.decrypt/decrypt.flip-c2",
+                                                "sm9.decrypt/decrypt.flip-c1", "sm9.decrypt/decrypt.truncated", "sm9.decrypt/decrypt.c1-offcurve"]})],
+        assumptions=["SM9.tla transcribes GM/T 0044.4 with MAC(K2,Z) = SM3(Z||K2) (Annex ciphertext as ASSUME)"],
+    ),
+    "C17": dict(
+        level="model_checking",
+        rule="sessions = key exchange runs; every step judged from its logged inputs; distinct = distinct (master key, ids, klen, ephemerals, tamper); non-trivial = all",
+        models=[dict(module="AnchorSM9q", anchor=True, workers=1, tier="quick", about="SM9.tla reproduces the GM/T 0044.5 Annex extraction / signature / ciphertext values via the derived evaluator; G0 has order N"), dict(module="AnchorSM9", anchor=True, workers=1, tier="thorough", timeout=900, about="all GM/T 0044.5 Annex values incl. the definitional pairings, decryption and key exchange; G0Const = Pairing(P1,P2)")],
+        stages=[dict(suite="sm9kex", trace="TraceSM9", timeout=3400,
+                     required_classes={"both": ["sm9kx.1a/kx.1a", "sm9kx.1b/kx.1b.none", "sm9kx.2a/kx.2a.none", "sm9kx.1b/kx.1b.offcurve", "sm9kx.2a/kx.2a.offcurve", "sm9kx.1b/kx.1b.bitflip"]})],
+        assumptions=["SM9.tla transcribes GM/T 0044.3 (Annex key exchange value as ASSUME)"],
+    ),
+    "C12": dict(
+        level="model_checking",
+        rule="events = pairings evaluated by the library: exact 384-byte comparison with the textbook pairing, bilinearity identities judged against G0^(ab), GT powers; distinct = distinct inputs; non-trivial = all",
+        models=[dict(module="AnchorSM9q", anchor=True, workers=1, tier="quick", about="SM9.tla reproduces the GM/T 0044.5 Annex extraction / signature / ciphertext values via the derived evaluator; G0 has order N"), dict(module="AnchorSM9", anchor=True, workers=1, tier="thorough", timeout=900, about="all GM/T 0044.5 Annex values incl. the definitional pairings, decryption and key exchange; G0Const = Pairing(P1,P2)")],
+        stages=[dict(suite="sm9pair", trace="TraceSM9", timeout=3400,
+                     required_classes={"both": ["sm9.pairing/pairing.exact.generators", "sm9.pairing/pairing.exact.near-order", "sm9.pairing/pairing.exact.random", "sm9.pairing/pairing.exact.annex-g",
+                                                "sm9.pair_ident/pairing.bilinear.random", "sm9.pair_ident/pairing.bilinear.near-order", "gt.pow/gt.pow.e=N-2"]})],
+        assumptions=["BN.tla: textbook R-ate pairing over Fp[w]/(w^12+2), final exponent by definition; anchored by the Annex value of e(P1, Ppub-s) through the signature example"],
+    ),
+    "C13": dict(
+        level="model_checking",
+        rule="events = tower operations on every zero pattern x boundary/random components, mod-N operations, G1/G2 operations on equal/opposite/infinity/generic operands in affine and Jacobian "
+             "representations, Booth recodings, all 37x64 table entries; distinct = distinct (operation, operands); non-trivial = all",
+        models=[dict(module="MC_Tower", about="the code's Fp2/Fp4 formulas over F_13: every Fp2 pair, every Fp4 element: L1 = L0"),
+                dict(module="MC_Tower", cfg="MC_Tower_neg", expect="violation", about="negative: the pinned commit's Fp2::fp_inv (c0 = 0 branch) must be refuted"),
+                dict(module="MC_Booth", about="sm9_u256_get_booth on toy limbs: every scalar reconstructs, digits in range, top digit non-negative"),
+                dict(module="MC_Mont", about="register-level Montgomery mul / add / sub with R = 2^7")],
+        stages=[dict(suite="sm9arith", trace="TraceSM9", timeout=3400,
+                     required_classes={"both": ["tower.op/fp2.inv.z0x", "tower.op/fp2.mul.zxx", "tower.op/fp4.inv.z0x0x", "tower.op/fp12.mul.mfff", "modn.op/modn.mul.near-modulus",
+                                                "g1.op/g1.add.P=Q.jac-jac", "g1.op/g1.add.P=-Q.jac-jac", "g2.op/g2.add.P=Q.jac-jac", "g2.op/g2.equals.P=-Q.jac-jac", "g2.op/g2.add.generic.affine-jac",
+                                                "booth/booth.w5.recode", "booth/booth.w7.recode", "g1.table/table.entry", "g1.table/table.row-base"]})],
+        assumptions=["BN.tla: Fp12 as the polynomial ring Fp[w]/(w^12+2); tower elements are judged through the embedding u = w^6, v = w^3"],
     ),
 }
 
@@ -247,14 +308,60 @@ MANIFEST_TEXT["C11"] = dict(
          "Nothing is claimed proved for all 256-bit operands; real-size coverage is boundary/witness/random conformance.",
     technique="TLC exhaustive toy models of the transcribed Jacobian/Montgomery code + TLA+ trace validation on denotations at real size (table exhaustive)",
 )
+MANIFEST_TEXT["C09"] = dict(
+    text="Signing runs under the RNG hook; TLC recomputes (h, S) from GM/T 0044.2 (SM9.tla: H1/H2, extraction, w = g^r in Fp[w]/(w^12+2), S = [r-h]ds) for the observed/scripted r and "
+         "requires equality (Annex A example included). Library-made and spec-made signatures must be accepted (validity follows from equality with the specification's signer). Fault "
+         "enumeration on (h, S, M, ID, Ppub-s): bit flips, h in {0, N-1, N, N+1, 2^256-1, 1}, S replaced / negated / infinity / off-curve, altered message, identity and master public key: the "
+         "library may accept only if the definitional verification (textbook pairing) holds; a crash is a deviation. E1: exponent model with lazily sampled random oracle (648k states) with a tightness control.",
+    note="Trusted: TLC/SANY, BigNat Java override, the transcription of GM/T 0044 in SM9.tla/BN.tla (Annex values as ASSUMEs; the full set incl. definitional pairings in the thorough tier), "
+         "the derived evaluator g = G0^ks for honest events (bilinearity is C12's business), the gm-sm9 RNG hook.",
+    technique="TLA+ trace validation with TLC at real parameters (exact differential, lazily evaluated definitional verification) + exhaustive exponent-model of sign/verify with tampering",
+)
+MANIFEST_TEXT["C10"] = dict(
+    text="Encryption runs under the RNG hook; TLC recomputes the exact ciphertext C1||C3||C2 from GM/T 0044.4 (K = KDF(C1||w||ID, |M|+32), C3 = SM3(C2||K2)) for the observed r, for every message "
+         "length 1..255 in the thorough tier (boundary subset in quick) incl. the Annex example; library-made and spec-made ciphertexts must decrypt to the message; every single-bit flip, every "
+         "truncation, off-curve C1, C1.x >= p, other identity / key are enumerated and an accepted faulted ciphertext is judged by the definitional decryption (textbook pairing).",
+    note="Trusted: as C09.",
+    technique="TLA+ trace validation with TLC at real parameters (exact ciphertext differential) + fault enumeration judged by the specification",
+)
+MANIFEST_TEXT["C12"] = dict(
+    text="BN.tla is a textbook R-ate pairing deliberately unlike the code (one polynomial ring Fp[w]/(w^12+2), affine Miller loop on the twist, lines through the untwist, final exponent "
+         "(p^12-1)/N as ONE power). Every recorded library pairing on generator multiples (small, near-order, random scalars; Jacobian inputs) is compared byte for byte with it (384 bytes), "
+         "including e(P1, Ppub-s) of the Annex; bilinearity/order identities e([b]P1,[a]P2) are judged against G0^(ab); GT powers are judged against the specification's power.",
+    note="Trusted: as C09; the Annex value of g is reproduced through the signature example (h depends on all 384 bytes of w).",
+    technique="TLA+ trace validation with TLC: exact differential against an independent textbook pairing written in TLA+",
+)
+MANIFEST_TEXT["C13"] = dict(
+    text="Tower operations (Fp, Fp2, Fp4, Fp12: add, sub, mul, sqr, neg, halve, invert, conjugate, multiplications by u / v / subfield elements, Frobenius powers) are judged through the embedding "
+         "u = w^6, v = w^3 into the polynomial ring of BN.tla on every zero pattern of components x boundary/random values; mod-N add/sub/mul/inv; G1/G2 add, double, neg, sub, variable-base and "
+         "fixed-base multiplication and equality on equal / opposite / infinity / generic operands in affine and Jacobian form (non-affine right operands included); Booth recodings (windows 5, 7) must "
+         "reconstruct the scalar; ALL 37x64 fixed-base table entries are walked by recurrence. E1: the code's Fp2/Fp4 formulas over F_13 (all elements), Booth on toy limbs (all scalars), Montgomery at toy width; negative control for the pinned Fp2::fp_inv.",
+    note="Trusted: as C09, plus the byte-level tower wrappers of the gm_rs_verif hook module. One known finding (TwistPoint::point_equals(P,-P)) is listed in known_findings.json.",
+    technique="TLC exhaustive toy models of the transcribed tower/Booth/Montgomery code + TLA+ trace validation against polynomial-ring arithmetic at real size (table exhaustive)",
+)
+MANIFEST_TEXT["C14"] = dict(
+    text="The sampler is specified as a machine (Rng.tla: Draw, Accept only in [1, order-1], one scalar per operation) and model-checked on a toy range with a negative control. At real size "
+         "thousands of randomized operations (SM2 keygen/sign/encrypt/exchange, SM9 keygen x3/sign/encrypt/exchange) run under the RNG hooks in two processes: every accepted candidate must be in "
+         "range and be the last draw, the scalar actually used (k recovered as s(1+d)+rd from signatures, or [k]G compared) must be the accepted draw, no scalar may repeat within or across processes, "
+         "per-bit frequencies within 8 sigma; injected candidates 0, order, order+1, order+2, p-2, p-1, p, 2^256-1 must never be accepted.",
+    note="Assumes the hook sits where the 32 generator bytes become a candidate. Bias is a counting test; OS seeding is observed only through non-repetition across processes.",
+    technique="TLC model of the sampler + TLA+ trace validation of hook-recorded draws (range, freshness, used = drawn, counting test)",
+)
+MANIFEST_TEXT["C16"] = dict(
+    text="mod_n_from_hash is judged on Ha = q(N-1)+rem for rem in {0,1,2,N-3,N-2} x boundary/random quotients generated by the specification (PlanSM9; includes q = 1, 45..47), structured and "
+         "random 40-byte inputs; H1/H2 wrappers on identities of 0..300 bytes; extraction of signing / encryption / exchange keys for Annex, edge, random master keys and master keys crafted by the "
+         "specification as N - H1(ID||hid) (extraction must report failure), compared with [k(H1+k)^-1]P on denotations.",
+    note="Trusted: as C09 (Annex extraction values as ASSUMEs).",
+    technique="TLA+ trace validation with TLC; boundary inputs and crafted master keys generated by the specification (E2 plan)",
+)
+MANIFEST_TEXT["C17"] = dict(
+    text="Each step of the exchange (1a, 1b, 2a) is judged from its logged inputs against GM/T 0044.3: RA = [rA]QB, RB = [rB]QA, SK = KDF(IDA||IDB||RA||RB||g1||g2||g3, klen) with the ephemeral "
+         "scalars from the RNG hook (Annex example with scripted rA, rB; klen 1..128); honest pairings use g^r, tampered R values (bit flip, other point) use the definitional pairing; "
+         "off-curve R must be rejected by its receiver (infinity: either outcome, it is a group element).",
+    note="Trusted: as C09 (Annex key exchange value as ASSUME in the thorough anchor).",
+    technique="TLA+ trace validation with TLC at real parameters (exact key differential per step)",
+)
 
 NOT_APPLICABLE = {
-    "C09": "machinery for this property is not built yet in this round (specification module in progress); not claimed until its check is sound",
-    "C10": "machinery for this property is not built yet in this round (specification module in progress); not claimed until its check is sound",
-    "C12": "machinery for this property is not built yet in this round (specification module in progress); not claimed until its check is sound",
-    "C13": "machinery for this property is not built yet in this round (specification module in progress); not claimed until its check is sound",
-    "C14": "machinery for this property is not built yet in this round (specification module in progress); not claimed until its check is sound",
-    "C16": "machinery for this property is not built yet in this round (specification module in progress); not claimed until its check is sound",
-    "C17": "machinery for this property is not built yet in this round (specification module in progress); not claimed until its check is sound",
     "C20": "machinery for this property is not built yet in this round (specification module in progress); not claimed until its check is sound",
 }
